@@ -104,6 +104,7 @@ func vf38ParseLine(line string) (map[string]any, string) {
 }
 
 type vf38Cfg struct {
+	external bool // SetExternalLocation + pointer requests (HTTP)
 	debug    bool
 	trace    string // none valid dashed upper half panic
 	claims   string // none sensitive nested
@@ -389,6 +390,14 @@ func vf38Run(x *venum.X, hist []*vf37Kind, httpT bool, cfg vf38Cfg) {
 	hook := NewAccessLogHook(&buf, "9.9.9")
 	hook.SetDebug(cfg.debug)
 	env := &vf37Env{Hook: hook, Compress: cfg.compress}
+	if cfg.external {
+		store := vf41NewStore()
+		store.preload()
+		env.External = &ExternalLocationConfig{Storage: store, ExternalizeThresholdBytes: 64, URLValidator: nil,
+			HTTPClient: &http.Client{Transport: store}, RetryDelay: 1, MaxRetries: 1}
+		env.NoCap = true
+		vf41ExtEnv(env)
+	}
 	if cfg.claims != "none" {
 		env.Auth = func(r *http.Request) (*AuthContext, error) {
 			return &AuthContext{Domain: "bearer", Authenticated: true, Principal: "alice", Claims: vf38Claims(cfg.claims)}, nil
@@ -414,6 +423,21 @@ func vf38Run(x *venum.X, hist []*vf37Kind, httpT bool, cfg vf38Cfg) {
 	x.Outcome("%s | %s", tr, strings.Join(oc, " "))
 }
 
+// vf38ExtKinds: calls whose parameters travel as an external-location pointer
+// (the upload-URL flow), next to inline calls and uploaded results.
+func vf38ExtKinds() []vf37Kind {
+	return []vf37Kind{
+		{Name: "u-ok", Class: "ok", Method: "u_ok", X: 5, Dispatched: true},
+		{Name: "u-big", Class: "ext-upload", Method: "u_big", X: 9000, Dispatched: true},
+		{Name: "req-ptr-unary", Class: "ext-request", Method: "u_ok", X: 5, Via: vf41URLx, Dispatched: true},
+		{Name: "req-ptr-unary-err", Class: "ext-request", Method: "u_err", X: 5, Via: vf41URLx, Dispatched: true},
+		{Name: "req-ptr-init-exch", Class: "ext-request", Method: "exch", Stream: 2, X: 5, In: []string{"i"}, Via: vf41URLx, Dispatched: true},
+		{Name: "req-ptr-init-prod", Class: "ext-request", Method: "prod", Stream: 1, X: 5, In: []string{"t", "t"}, Via: vf41URLx, Dispatched: true},
+		{Name: "req-ptr-404", Class: "ext-request-404", Method: "u_ok", X: 5, Via: vf41URLabsent},
+		{Name: "in-ptr", Class: "ext-input", Method: "exch", Stream: 2, X: 6, In: []string{"P" + vf41URLx, "i"}, Dispatched: true},
+	}
+}
+
 func TestVerif_C38(t *testing.T) {
 	venum.Begin("C38")
 	defer venum.Finish(t)
@@ -434,6 +458,21 @@ func TestVerif_C38(t *testing.T) {
 			if cfg.claims != "none" {
 				cfg.redactor = redactors[x.Choose(len(redactors), "redactor")]
 			}
+			cfg.compress = x.Bool("compress")
+		}
+		vf38Run(x, hist, httpT, cfg)
+	})
+
+	// Space 3: external storage — parameters sent as an upload-URL pointer that
+	// the server resolves, uploaded results, pointer exchange inputs. The
+	// payload rule applies to the RESOLVED parameter batch.
+	extKinds := vf38ExtKinds()
+	venum.Explore(t, venum.Cfg{Name: "record-external", Shardable: true}, func(x *venum.X) {
+		hist := vf37ChooseHistory(x, extKinds, 2)
+		httpT := x.Bool("http")
+		cfg := vf38Cfg{external: true, trace: "valid", claims: "none", redactor: "default"}
+		cfg.debug = x.Bool("debug")
+		if httpT {
 			cfg.compress = x.Bool("compress")
 		}
 		vf38Run(x, hist, httpT, cfg)
